@@ -322,21 +322,40 @@ def work_builtin(chunk, st):
             vals = sorted(set(dh.values()))
             gex = P.GexPolicy(vals[:1], P.STRICT)
         kw = dict(kex=p['kex'], key=keys, enc=p['ciphers'], mac=p['macs'], banner=b'SSH-2.0-dropbear_2022.83')
-        if p['server_policy']:
-            srv = P.Server(host_keys=hk, gex=gex, **kw)
-            res = H.audit(srv, opts=['-n', '--skip-rate-test', '-j', '-P', name])
-        else:
-            cli = P.Client(**kw)
-            res = H.client_audit(cli, opts=['-n', '-j', '-P', name])
-        st.execution(res.world, outcome=('builtin', res.status), root=('builtin', name), nontrivial=('builtin', name))
-        ok = False
-        try:
-            d = json.loads(res.stdout)
-            ok = res.status == 0 and d.get('passed') is True and not d.get('errors')
-        except ValueError:
-            d = None
-        if not ok:
-            st.violation('builtin-policy-fails-on-matching-peer:%s' % name, {'policy': name, 'status': res.status, 'stdout': res.stdout[:600]})
+        variants = [('required-only', kw, hk)]
+        opt = list(p.get('optional_host_keys') or [])
+        if opt and p['server_policy']:
+            # every optional host key as well, each with a well-formed key of the size (and CA) the policy states for it
+            hk2 = dict(hk)
+            for k in opt:
+                sz = sizes.get(k) or {}
+                cat = sz.get('ca_key_type')
+                ca_tree = wire.rsa_blob_tree(sz.get('ca_key_size') or 4096) if cat == 'ssh-rsa' else wire.ed25519_blob_tree(b'\x44' * 32)
+                if k == 'ssh-ed25519-cert-v01@openssh.com':
+                    hk2[k] = wire.ed25519_cert_tree(ca_tree)
+                elif 'rsa' in k and '-cert-' in k:
+                    hk2[k] = wire.rsa_cert_tree(sz.get('hostkey_size') or 4096, ca_tree)
+                elif k == 'sk-ssh-ed25519@openssh.com':
+                    hk2[k] = wire.sk_ed25519_blob_tree()
+                elif k == 'sk-ssh-ed25519-cert-v01@openssh.com':
+                    hk2[k] = wire.sk_ed25519_cert_tree(ca_tree)
+            variants.append(('with-optional-host-keys', dict(kw, key=keys + opt), hk2))
+        for vname, kw, hk in variants:
+            if p['server_policy']:
+                srv = P.Server(host_keys=hk, gex=gex, **kw)
+                res = H.audit(srv, opts=['-n', '--skip-rate-test', '-j', '-P', name])
+            else:
+                cli = P.Client(**kw)
+                res = H.client_audit(cli, opts=['-n', '-j', '-P', name])
+            st.execution(res.world, outcome=('builtin', res.status, vname), root=('builtin', name, vname), nontrivial=('builtin', name, vname))
+            ok = False
+            try:
+                d = json.loads(res.stdout)
+                ok = res.status == 0 and d.get('passed') is True and not d.get('errors')
+            except ValueError:
+                d = None
+            if not ok:
+                st.violation('builtin-policy-fails-on-matching-peer:%s:%s' % (vname, name), {'policy': name, 'variant': vname, 'status': res.status, 'stdout': res.stdout[:600]})
         st.sample({'builtin_policy': name, 'status': res.status}, cap=6)
 
 
